@@ -720,6 +720,15 @@ def compare(spec, jobs, T, coq, fails):
     if sizes != obs['sizes']:
         fails.append((size, 'MonteCarloGFormula.fit.at-risk-count', 'fit(%s): _predict was called on %r rows per step, the model keeps %r '
                       'event-free uncensored rows' % (tag0, obs['sizes'], sizes), payload))
+    if obs.get('in_steps') is not None:
+        # in_recode is the documented place to maintain functional forms of the entry time (g['t_sq'] = g['t_in']**2, read by models
+        # and custom plans): when it runs at step i the time column of every row is already i
+        for i, st in enumerate(obs['in_steps']):
+            late = [r for r in st if r['t_in'] != i]
+            if late:
+                fails.append((size, 'MonteCarloGFormula.fit.in_recode-time', 'fit(%s): at in_recode of step %d the entry-time column of uid %d is %d '
+                              '(%d of %d rows): terms derived from it there lag one interval behind' % (tag0, i, late[0]['uid'], late[0]['t_in'], len(late), len(st)), payload))
+                break
     if obs['trace_steps'] is not None:
         if k_in != -1 or k_out != -1:
             fails.append((size, 'MonteCarloGFormula.fit.at-risk-set', 'fit(%s): the rows simulated at step %d are not the rows still event-free '
